@@ -17,7 +17,8 @@ LEVEL_TEXT = ('Generated inner programs (depth <= 2: params, Dense, nested child
               ' Further streams: sub-modules called before / inside / after a region, outer jit and grad around the'
               ' lifted program, attribute-only stale-trace probes with colliding hashes, attribute sub-modules in every'
               ' field order, lifted helper methods that create auto-named layers, nn.jit positional keyword arguments.'
-              ' Round f: cond_rng (branches that draw rngs), nested_adoption (composition by attribute, depth >= 2), jit_process_history (draws after a jitted call do not depend on earlier uses in the process).')
+              ' Round f: cond_rng (branches that draw rngs), nested_adoption (composition by attribute, depth >= 2), jit_process_history (draws after a jitted call do not depend on earlier uses in the process).'
+              ' Round g: no key is repeated after a cond whose branches draw different numbers of keys.')
 LEVEL_NOTE = ('nn.remat needs the jax.checkpoint compat alias. Under nn.jit random draws inside the lifted module differ from the plain '
               'program by design (fork_rngs): only determinism per call site is demanded there. map_variables follows the documented idiom '
               'init=self.is_initializing().')
